@@ -87,7 +87,7 @@ def assemble(unit, workdir, canary=False, canary_loops=False):
             m = re.search(r"(?m)^@fn " + re.escape(imp["fn"]) + r"((?: -> \w+)?)[ \t]*\n(.*?)(?=^@fn |^@raw|\Z)", otxt, re.S)
             if not m:
                 raise Infra(f"{unit['name']}: contract of {imp['fn']} not found in {imp['unit']}")
-            txt = f"//@ contract of {imp['fn']} imported verbatim from unit {imp['unit']} (proved there)\n@fn {imp['fn']} @assumed{m.group(1)}\n{m.group(2)}" + txt
+            txt = f"//@ contract of {imp['fn']} imported verbatim from unit {imp['unit']}\n@fn {imp['fn']} @assumed{m.group(1)}\n{m.group(2)}" + txt
         contract_path = os.path.join(workdir, stem + ".contract.rs")
         with open(contract_path, "w") as f:
             f.write(txt)
@@ -122,6 +122,20 @@ def assemble(unit, workdir, canary=False, canary_loops=False):
     with open(final, "w") as f:
         f.write("".join(parts))
     rep = json.load(open(report))
+    # say where each imported contract is discharged (or that it is not)
+    if imports:
+        all_units = load_units()
+        fixed = []
+        for a in rep["assumed"]:
+            for imp in imports:
+                if a.startswith(imp["fn"] + ":"):
+                    other = all_units[imp["unit"]]
+                    if other.get("enabled", True):
+                        a = f"{imp['fn']}: contract imported verbatim from unit {imp['unit']}, where it is discharged ({other['backend']})"
+                    else:
+                        a = f"{imp['fn']}: contract imported from unit {imp['unit']} which is NOT proved yet -> ASSUMED"
+            fixed.append(a)
+        rep["assumed"] = fixed
     for l in rep["lines"]:
         l["start"] += pre_lines
         l["end"] += pre_lines
@@ -159,7 +173,7 @@ def parse_verus_errors(stderr, final, rep):
     return errs
 
 
-def run_verus(unit, workdir, canary=False, timeout=900):
+def run_verus(unit, workdir, canary=False, timeout=420):
     final, rep = assemble(unit, workdir, canary=canary, canary_loops=canary)
     stem = os.path.basename(final)[:-3]
     args = ["verus", final, "--edition", "2024", "--output-json", "--time", "--triggers-mode", "silent", "--multiple-errors", "8"] + unit.get("verus_args", [])
